@@ -55,6 +55,8 @@ func detRoot(root string, types []string) string {
 		return "{\n  \"p\": @r1 | @r2,\n  \"q\": @r3 | @r4\n}"
 	case "refs-a":
 		return `{"p": @a}`
+	case "self-two-names":
+		return "{\n  \"next\": @selfb\n}"
 	case "heir-of-i":
 		return "{ // {allOf: \"@i\"}\n  \"rk\": 1\n}"
 	case "refs-all":
@@ -166,6 +168,10 @@ func detObserve(cs detCase) string {
 					_ = objs[t].Check()
 				}()
 			}
+		}
+		if cs.Root == "self-two-names" {
+			_ = root.AddType("@selfa", root)
+			_ = root.AddType("@selfb", root)
 		}
 		// AddType results are observables of each call, keyed by type so that they can be compared across orders
 		res := map[string]string{}
